@@ -868,6 +868,69 @@ func genHuge(c *hx.Ctx, maxp int) []*scriptScn {
 	return out
 }
 
+// A transient failure on the READ side of the trunk: the Mux's trunk Read returns a time-out (os.ErrDeadlineExceeded, a
+// net.Error with Timeout()) once, at a chosen offset of the incoming stream — on a frame boundary, inside a header,
+// between header and payload, inside a payload — and the trunk delivers data again afterwards.  A read failure of any
+// kind at any offset ends the reader: the frames completed before the offset arrive, then every Read fails; nothing is
+// delivered damaged, nothing hangs.  The sender is a bare transport end.
+func genReadFail(c *hx.Ctx) []*scriptScn {
+	var out []*scriptScn
+	frames := []struct {
+		id   uint32
+		size int
+	}{{1, 3}, {2, 0}, {1, 17}, {9, 4}, {2, 6}, {1, 1}}
+	var stream []byte
+	bounds := []int{0}
+	for k, fr := range frames {
+		pay := make([]byte, fr.size)
+		for j := range pay {
+			pay[j] = byte(16*k + j + 1)
+		}
+		stream = append(stream, frameBytes(fr.id, pay)...)
+		bounds = append(bounds, len(stream))
+	}
+	offs := map[int]bool{}
+	if c.Quick() {
+		for _, bd := range bounds {
+			for _, d := range []int{-1, 0, 1, 4, 8, 9} {
+				if bd+d >= 0 && bd+d <= len(stream) {
+					offs[bd+d] = true
+				}
+			}
+		}
+	} else {
+		for n := 0; n <= len(stream); n++ {
+			offs[n] = true
+		}
+	}
+	var ns []int
+	for n := range offs {
+		ns = append(ns, n)
+	}
+	sort.Ints(ns)
+	for k, n := range ns {
+		transport := []string{"pipe", "unix"}[k%2]
+		b := newBuilder("muxfault_readfail", transport, 256, nil, []uint32{1, 2})
+		b.s.Raw[0] = true
+		b.s.RdFail[1] = n + 1
+		b.s.Note = fmt.Sprintf("trunk Read times out once at offset %d of %d, then carries on", n, len(stream))
+		if k%3 == 0 {
+			b.readOrBg(1, 1) // a Read is waiting when it happens
+			b.readOrBg(1, 2)
+		}
+		if k%2 == 0 || transport == "pipe" {
+			b.add(act{Op: "raw", Side: 0, Hex: hex.EncodeToString(stream)})
+		} else {
+			cut := 1 + (n+5)%(len(stream)-1)
+			b.add(act{Op: "raw", Side: 0, Hex: hex.EncodeToString(stream[:cut])})
+			b.add(act{Op: "raw", Side: 0, Hex: hex.EncodeToString(stream[cut:])})
+		}
+		b.add(act{Op: "trunkclose", Side: 0})
+		out = append(out, b.finish())
+	}
+	return out
+}
+
 // ---------------------------------------------------------------- listener wrapper
 
 func genListener(c *hx.Ctx) []*scriptScn {
@@ -934,7 +997,7 @@ func driveFault(c *hx.Ctx) error {
 		f    func(*hx.Ctx) []*scriptScn
 	}{{"muxfault_cut", genCut}, {"muxfault_overflow", genOverflow}, {"muxfault_close", genClose},
 		{"muxfault_closers", genClosers}, {"muxfault_blocked", genBlocked}, {"muxfault_raw", genRaw},
-		{"muxfault_open", genOpen}, {"muxfault_reopen", genReopen}, {"muxfault_deadline", genDeadline}, {"muxfault_unblock", genUnblock}, {"muxfault_listener", genListener}}
+		{"muxfault_open", genOpen}, {"muxfault_reopen", genReopen}, {"muxfault_deadline", genDeadline}, {"muxfault_unblock", genUnblock}, {"muxfault_readfail", genReadFail}, {"muxfault_listener", genListener}}
 	var all []*scriptScn
 	for _, sc := range corpus(c, "C11") {
 		all = append(all, sc.S)
@@ -999,6 +1062,7 @@ func driveFault(c *hx.Ctx) error {
 		"muxfault_unblock: Mux.Unblock once or twice at both ends before, between and after two-way traffic on two connections, on Muxes created without WithBlockedRead (never blocked) and on Muxes unblocked at set-up, and twice on a Mux that really was blocked with frames waiting: everything written has to arrive; " +
 		"muxfault_closestress: for 2 s (thorough 8 s) per transport and mode, cycles of Open (or Listen+Accept) at one end, a burst of 48 frames from the other end on that id, and conn.Close (or Listener.Close) somewhere inside the burst, on at least 4 processors, in child processes: a panic of the multiplexer is an observation (exit status and stderr of the child); afterwards a fresh connection must still deliver; " +
 		"muxfault_hugelen: a bare transport end sends a header whose length field is maxPayloadSize+1, 2^31-1, 2^31, 2^32-2 or 2^32-1, for an open and an unopened id, optionally after a good frame and followed by 0-3 bytes, then closes; one child process per scenario, sequentially; no panic, nothing delivered for the bogus frame, Reads end with an error or end-of-file; " +
+		"muxfault_readfail: the Mux's trunk Read returns a time-out (a net.Error) once at an offset of the incoming stream — frame boundaries, -1, +1, +4 (inside a header), +8 (between header and payload), +9 (inside a payload) in quick, every offset in thorough — and the trunk carries on; a bare end sends six frames in one or two pieces; fail-stop at every offset: an undamaged prefix, then errors, nothing hangs; " +
 		"muxfault_listener: every sequence of Accept/Close up to length 4 (thorough 7) on the listener wrapper. " +
 		"In three of five cut scenarios the failing trunk.Write returns a net.Error (Timeout or Temporary) and, when it was partial, the trunk takes bytes again afterwards (an expired write deadline, the peer drains again): the Writes that follow on other ids must fail all the same, a partial write is fatal whatever the error's type. " +
 		"A cut fails the outgoing direction of one end after an exact number of bytes (the failing trunk.Write returns the n bytes that still went out); after every fault the script waits until each Mux that has to close itself has closed its trunk, so that later calls do not race with its reader. Every call runs under a 20 s bound (1 s for the rest of a scenario once a call has hung; a hung scenario is run again alone before it is reported); a script ends with Close at both ends, a drain of every connection (Reads until 64 consecutive errors) and one more Write. Non-trivial: a fault was injected and at least one call was made after it. Compared in Coq: every call's result class and payload against the model replayed on the same script (select choices taken from the observation), the recorded trunk bytes, and the property's predicate on the observation."
